@@ -17,6 +17,7 @@ theorem sameClass_withBoost (k : CK) : ∀ (q : Q) (b : Rat), sameClass k (q.wit
   | .not _ _, _ => rfl
   | .bin k' _ _, _ => by cases k' <;> rfl
   | .const _ _, _ => rfl
+  | .opq _ _, _ => rfl
 
 theorem wild_branch {f : Field} {t : Text} {b : Rat} {c : Bool}
     (h : wildNormalize f t b c = .wild f t b c) (b' : Rat) : wildNormalize f t b' c = .wild f t b' c := by
@@ -69,6 +70,7 @@ theorem Normal_withBoost : ∀ (q : Q) (b : Rat), Normal q = true → Normal (q.
     simp only [Q.withBoost, Normal, Bool.and_eq_true, Bool.not_eq_true', withBoost_isNull]
     exact ⟨⟨⟨Normal_withBoost x b h.1.1.1, Normal_withBoost y b h.1.1.2⟩, h.1.2⟩, h.2⟩
   | .const _ _, _, _ => rfl
+  | .opq _ _, _, _ => rfl
 
 theorem Normal_rngNormalize (r : Rng) : Normal r.normalize = true := by
   unfold Rng.normalize
@@ -289,6 +291,7 @@ theorem Normal_normalize : ∀ (q : Q), Normal (normalize q) = true
     simp only [normalize]
     exact binNormalize_Normal k _ _ (Normal_normalize a) (Normal_normalize b)
   | .const _ _ => rfl
+  | .opq _ _ => rfl
 theorem NormalList_normalizeList : ∀ (qs : List Q), NormalList (normalizeList qs) = true
   | [] => rfl
   | q :: qs => by
